@@ -714,13 +714,15 @@ class CursedHR:
                     entry_line = 0
 
                 start_entry = start_entry_
-            elif entry_line == 0:
+            else:
+                # also when the view stands in the middle of the entry (entry_line > 0)
                 start_entry_ = self.next_sufficient_entry(start_entry)
 
                 if start_entry_ is None:
                     return fallback_entry
 
                 start_entry = start_entry_
+                entry_line = 0
 
             zone = self.entry_zone(start_entry)
 
